@@ -48,19 +48,23 @@ class C09(P.Property):
     technique = ("deterministic simulation of the full deployment (real client, real server, websocket, disk) with client re-creation and "
                  "server kill/restart as generated events; oracle = the plaintext database")
     level_text = ("seeded exploration over scheme x configuration grid x database shape x search sequence x placements of client "
-                  "re-creation / server restart x network profile, plus a complete sweep of all 2^7 re-creation placements x 3 restart "
-                  "placements for one scheme and database; a stall configuration with a narrowly relaxed oracle is reported separately")
+                  "re-creation / server restart (in-process, or for real in a second interpreter with another hash salt) x deployment "
+                  "layout (shared HOME / separate hosts) x network profile x one optional fault (reply stall, server read error, blocker "
+                  "connection, server killed mid-request) with a narrowly relaxed oracle for the operation it hits; plus a complete "
+                  "sweep of all 2^7 re-creation placements x 3 restart placements for one scheme and database")
     level_note = ("trusted: the simulator, the driver and oracle in props/c09.py; the oracle is DB.get(w, []) and not the scheme; under a "
                   "non-default grid configuration a loud refusal while building config/key/index ends the run without a verdict")
-    rule = ("plan = scheme (all nine) + configuration from a small grid + JSON database (1-8 keywords, list lengths biased to 1, 2^k, 2^k+-1) "
-            "+ 3-12 searches over present / absent / near-miss keywords + which step boundaries re-create the client object from disk, "
-            "which restart the server (after the upload) + latency/segmentation/skew (+ optional stall); non-trivial = at least one "
-            "re-creation or restart and at least one search answered; distinct = digest of (scheme, cfg index, placement vector, "
-            "result classes)")
+    rule = ("plan = scheme (all nine) + configuration from a small grid + JSON database (1-8 keywords incl. whitespace / NUL / multi-byte / "
+            "32-byte keywords, list lengths biased to 1, 2^k, 2^k+-1, occasionally 100-1500; thorough: rarely 180 000) + 3-12 searches over "
+            "present / absent / near-miss keywords + which step boundaries re-create the client object, which restart the server + decoy "
+            "service + idle periods + latency/segmentation/skew + at most one fault; non-trivial = at least one re-creation or restart "
+            "and at least one search answered; distinct = digest of (scheme, cfg index, placement vector, result classes)")
     real_stub = dict(deployment="everything under frontend/, schemes/, toolkit/ real; websockets real; loop/clock/TCP/process lifetime simulated; "
                                 "disk real with mutation seam")
     assumptions = ["a server restart implies that the client object is re-created (a client holding a dead socket is not the property's subject)",
-                   "stall >= 60 s: that one operation may fail with a timeout; nothing else is relaxed"]
+                   "an operation hit by an injected fault (stall >= 60 s, failing read, blocker, kill mid-request), or issued on the client object "
+                   "that sat through one, may fail; it may never deliver another keyword's result, and a new client object must then succeed",
+                   "PYTHONHASHSEED is pinned per interpreter (DP17 pickles a set); the second interpreter of a real restart gets another one"]
     probe_names = ["scheme_" + s for s in fe.SCHEMES] + ["recreate_before_" + w for w in WORKFLOW[1:]] + [
         "recreate_before_first_search", "recreate_between_searches", "kept_object_whole_workflow", "server_restart_before_first_search",
         "server_restart_between_searches", "recreate_inside_cleanup_window", "absent_keyword", "near_miss_keyword", "nondefault_config",
